@@ -153,6 +153,12 @@ pub fn helper(name: &str, a: &[u64], rnd_mode: u32, flags: &mut u32) -> Option<V
         "compare_gt_128" => { need(4)?; vec![b(__unsigned_compare_gt_128(&u128_(0), &u128_(2)))] }
         "compare_ge_128" => { need(4)?; vec![b(__unsigned_compare_ge_128(&u128_(0), &u128_(2)))] }
         "test_equal_128" => { need(4)?; vec![b(__test_equal_128(&u128_(0), &u128_(2)))] }
+        // the digit-group helpers of bid128_to_string (bid128_2_str_macros.rs): the groups pushed onto an empty vector
+        "split_midi_2" => { need(1)?; let mut v: Vec<u32> = Vec::new(); crate::bid128_2_str_macros::__l0_split_midi_2(a[0] as u32, &mut v); v.into_iter().map(|x| x as u64).collect() }
+        "split_midi_3" => { need(1)?; let mut v: Vec<u32> = Vec::new(); crate::bid128_2_str_macros::__l0_split_midi_3(a[0] as u32, &mut v); v.into_iter().map(|x| x as u64).collect() }
+        "split_midi_6" => { need(1)?; let mut v: Vec<u32> = Vec::new(); crate::bid128_2_str_macros::__l1_split_midi_6(a[0], &mut v); v.into_iter().map(|x| x as u64).collect() }
+        "split_midi_6_lead" => { need(1)?; let mut v: Vec<u32> = Vec::new(); crate::bid128_2_str_macros::__l1_split_midi_6_lead(a[0], &mut v); v.into_iter().map(|x| x as u64).collect() }
+        "normalize_10to18" => { need(2)?; let (mut h, mut l) = (a[0], a[1]); crate::bid128_2_str_macros::__l0_normalize_10to18(&mut h, &mut l); vec![h, l] }
         _ => return None,
     })
 }
